@@ -107,6 +107,11 @@ WriteEvent(ps, opRec) ==
                                 !.tlvOnly = sess.tlvOnly /\ \A i \in 1..Len(ps) : isTlv(ps[i]),
                                 !.tlvs = sess.tlvs \o [i \in 1..Len(ps) |-> IF isTlv(ps[i]) THEN [t |-> KindCode(ps[i].t), v |-> ps[i].v] ELSE [t |-> -1, v |-> << >>]]]
         /\ Emit(Sel("C09", IF refused /\ Ev.r = "ok" THEN {<< "C09", "oversized-value-not-refused", "write" >>} ELSE {})
+                \cup Sel("C07", IF sess.tag.g = "bwire" /\ sess.tlvOnly /\ sess.noSetLen /\ Len(sess.ops) >= 1 /\ sess.ops[1][1] = "BWith"
+                                    /\ sess.ops[1][2] \in {32, 33} /\ (\A i \in 1..Len(ps) : isTlv(ps[i]))
+                                    /\ b.alive /\ Ev.r = "err" /\ ~refused
+                                    /\ RlLen(ExpectedPayload(AfterWritePayloadsOk(b, ps))) <= MaxU16
+                                 THEN {<< "C07", "tlv-refused-although-the-encoding-fits", "write" >>} ELSE {})
                 \cup Sel("C03", IF Ev.r = "panic" THEN {<< "C03", "panic", "write" >>} ELSE {})
                 \cup Sel("DRIFT", IF Ev.r \in {"ok", "err"} /\ model.alive # (Ev.r = "ok") THEN {<< "DRIFT", "write-outcome", "write" >>} ELSE {})
                 \cup (IF Ev.r = "ok" THEN BuiltChecks(s, Ev.built) ELSE {}),
@@ -122,6 +127,32 @@ TraceBWrites ==
     /\ WriteEvent(Ev.ps, << << "BWrites", Ev.ps >> >>)
     /\ UNCHANGED << parsed, pairA, w, wGated >>
 
+(* a batch given as runs << payload, count >> (tens of thousands of items, most of which encode to
+   nothing): the state follows the observed outcome; when the call succeeded the output grows by
+   every run's encoding repeated count times, in order *)
+RECURSIVE RlRepeat(_, _)
+RlRepeat(enc, n) ==
+    IF n = 0 \/ enc = << >> THEN << >>
+    ELSE IF Len(enc) = 1 THEN << << enc[1][1], enc[1][2] * n >> >>
+    ELSE RlCat(enc, RlRepeat(enc, n - 1))
+
+TraceBWritesRep ==
+    /\ IsEvent("BWritesRep")
+    /\ LET runs == Ev.runs
+           encs == [i \in 1..Len(runs) |-> RlRepeat(Encode(runs[i].p), runs[i].n)]
+           refused == \E i \in 1..Len(runs) : runs[i].n > 0 /\ Refused(runs[i].p)
+           s == IF Ev.r = "ok"
+                THEN [b EXCEPT !.header = RlCat(HeaderLaidDown(b), RlConcat(encs)), !.written = b.written \o encs,
+                               !.fieldAt = FieldLaidDown(b)]
+                ELSE [b EXCEPT !.alive = FALSE]
+       IN  /\ b' = s
+           /\ sess' = [sess EXCEPT !.ops = sess.ops \o << << "BWritesRep", runs >> >>, !.tlvOnly = FALSE]
+           /\ Emit(Sel("C09", IF refused /\ Ev.r = "ok" THEN {<< "C09", "oversized-value-not-refused", "write" >>} ELSE {})
+                   \cup Sel("C03", IF Ev.r = "panic" THEN {<< "C03", "panic", "write" >>} ELSE {})
+                   \cup (IF Ev.r = "ok" THEN BuiltChecks(s, Ev.built) ELSE {}),
+                   (IF Ev.r = "ok" THEN BuiltFlags(s, Ev.built) ELSE {}) \cup Flag("C09", refused))
+    /\ UNCHANGED << parsed, pairA, w, wGated >>
+
 TraceBTlv ==
     /\ IsEvent("BTlv")
     /\ WriteEvent(<< [ty |-> "tlv", t |-> Ev.t, v |-> Ev.v] >>, << << "BTlv", Ev.t, Ev.v >> >>)
@@ -135,7 +166,7 @@ ExpectedRebuildOps(mode) ==
         tb == o.vw.tb
         items == o.vw.walk.items
         okItems == SelectSeq(items, LAMBDA x : x.k = "ok")
-    IN  CASE mode = "raw" -> << << "BNew", raw[13], raw[14] >>, << "BWrite", [ty |-> "slice", v |-> ab] >>, << "BWrite", [ty |-> "slice", v |-> tb] >> >>
+    IN  CASE mode \in {"raw", "typed"} -> << << "BNew", raw[13], raw[14] >>, << "BWrite", [ty |-> "slice", v |-> ab] >>, << "BWrite", [ty |-> "slice", v |-> tb] >> >>
           [] mode = "items" -> << << "BNew", raw[13], raw[14] >>, << "BWrite", [ty |-> "slice", v |-> ab] >> >>
                                 \o [i \in 1..Len(okItems) |-> << "BTlv", [ty |-> "raw", code |-> okItems[i].t], okItems[i].v >>]
           [] mode = "peek" -> << << "BNew", raw[13], raw[14] >>, << "BWrite", [ty |-> "slice", v |-> ab] >>,
@@ -280,7 +311,7 @@ TraceWFinish ==
 
 TraceNext ==
     \/ TraceBReset \/ TraceBNew \/ TraceBWith \/ TraceBReserve \/ TraceBSetLen \/ TraceBWrite \/ TraceBWrites
-    \/ TraceBTlv \/ TraceBBuild \/ TraceParsed \/ TraceParseBack \/ TraceWFrom \/ TraceWWrite
+    \/ TraceBTlv \/ TraceBWritesRep \/ TraceBBuild \/ TraceParsed \/ TraceParseBack \/ TraceWFrom \/ TraceWWrite
     \/ TraceWDefault \/ TraceWWriteP \/ TraceWFinish
 
 TraceSpec == TraceInit /\ [][TraceNext]_tvars
